@@ -142,6 +142,10 @@ class UnitRun:
                     inside = self.fn_at(n)
                     if inside is not None and tok in ("assume(", "admit("):
                         ident = inside[3]["path"].split("::")[-1]
+                    if tok == "assume_specification":
+                        ms = re.search(r"assume_specification\s*\[\s*([^\]]+)\]", code)
+                        if ms:
+                            ident = ms.group(1).strip().split("::")[-1]
                     for look in ([] if ident else self.lines[n - 1:n + 6]):
                         m = re.search(r"\b(fn|struct|spec fn)\s+([A-Za-z_0-9]+)", look)
                         if m:
